@@ -42,6 +42,18 @@ IsValidImpl(r) ==
       /\ \A i \in DataPos(r)..(e - 1) : r[i] <= 128
 PayloadImpl(r) == SubSeq(r, DataPos(r), EndPos(r) - 1)
 
+\* ---- growth (DESIGN §12): the other accessors of DataReadout, implementation-shaped (DRIFT level)
+\* end_line = the text from the end character on, decoded as ASCII and stripped (raises on non-ASCII);
+\* expected_checksum = None (-1) without text after "!", int(text, 16) for plain hexadecimal text ("free" otherwise, see above)
+EndRaw(r) == SubSeq(r, EndPos(r), Len(r))
+EndLineImpl(r) == Strip(EndRaw(r))
+ExpectedImpl(r) == \* <<judged, value>>: value -1 = None, -2 = raises
+   LET endline == EndLineImpl(r) text == Strip(SubSeq(endline, 2, Len(endline))) IN
+   IF ~IsAscii(EndRaw(r)) THEN <<TRUE, -2>>
+   ELSE IF Len(endline) <= 1 THEN <<TRUE, -1>>
+   ELSE IF AllHex(text) /\ Len(text) <= 7 THEN <<TRUE, HexVal(text)>>
+   ELSE <<FALSE, 0>>
+
 \* reference encoder: ident (without line end), data lines (without line ends), checksum mode
 Crlf == <<CR, LF>>
 Lines(ls) == FoldLeft(LAMBDA a, l : a \o l \o Crlf, <<>>, ls)
